@@ -458,7 +458,21 @@ def peeling_rule(prog: Program, rep, RID: str):
     rp = [s for s in g.node.body if isinstance(s, ast.Assign) and isinstance(s.value, ast.List) and len(s.value.elts) == 1]
     w = whiles[0]
     wapp = [norm(s) for s in w.body]
-    if m2 and rp and norm(rp[-1].value.elts[0]) == m2.group(1):
+    # cursor form: `cur = <sink>; R = [cur]; while G.in_degree(cur) > 0: cur = Mn[cur]; R.append(cur)`
+    cursor = None
+    if m2 and rp and isinstance(rp[-1].value.elts[0], ast.Name):
+        cdefs = [s for s in g.node.body if isinstance(s, ast.Assign) and len(s.targets) == 1 and norm(s.targets[0]) == rp[-1].value.elts[0].id]
+        if len(cdefs) == 1 and norm(cdefs[0].value) == m2.group(1):
+            cursor = rp[-1].value.elts[0].id
+    if cursor is not None:
+        R = norm(rp[-1].targets[0])
+        ok = norm(w.test) == f"{G}.in_degree({cursor}) > 0" and wapp == [f"{cursor} = {Mn}[{cursor}]", f"{R}.append({cursor})"] and \
+            norm(r.elts[1]) in (f"list(reversed({R}))", f"{R}[::-1]")
+        if ok:
+            rep.ok(RID, key + ":recover", f"the path is followed back from the sink whose value is returned, through the recorded predecessors, to a source", g.loc(w))
+        else:
+            raise AnalysisError(f"{key}: path recovery with a cursor not recognised (`while {norm(w.test)}: {wapp}`)")
+    elif m2 and rp and norm(rp[-1].value.elts[0]) == m2.group(1):
         R = norm(rp[-1].targets[0])
         ok = norm(w.test) == f"{G}.in_degree({R}[-1]) > 0" and wapp == [f"{R}.append({Mn}[{R}[-1]])"] and norm(r.elts[1]) in (f"list(reversed({R}))", f"{R}[::-1]")
         if ok:
